@@ -233,24 +233,27 @@ func (r *runner) search(o op) string {
 	if !equalStrings(gotKeys, wantKeys) {
 		return fmt.Sprintf("SearchSeriesKeys %s: got %q, want %q", where, gotKeys, wantKeys)
 	}
-	// 3. query path
-	cond3, _ := parseCond(text)
-	items, err := r.s.scan(mstVer, cond3)
-	if err != nil {
-		return fmt.Sprintf("IndexBuilder.Scan %s failed: %v", where, err)
-	}
-	gotScan := make([]uint64, len(items))
-	for i, it := range items {
-		gotScan[i] = it.id
-	}
-	if extra, missing := diffIDs(gotScan, wantIDs); len(extra)+len(missing) > 0 {
-		return fmt.Sprintf("IndexBuilder.Scan %s: wrongly selected %s, not selected %s (of %d series, %d expected)",
-			where, r.describe(extra), r.describe(missing), len(all), len(want))
-	}
-	for _, it := range items {
-		sr := r.m.byKey[r.m.keys[it.id]]
-		if !equalTags(it.tags, sr.T) {
-			return fmt.Sprintf("IndexBuilder.Scan %s: id %x reported with tags %q, written as %q", where, it.id, it.tags, sr.T)
+	// 3. query path, executed three times: the first execution of a conjunction fills the tag-filter cost cache, later ones may
+	// take the cost-based "prune" path (per-series evaluation of the remaining filters) instead of the index scan
+	for rep := 0; rep < 3; rep++ {
+		cond3, _ := parseCond(text)
+		items, err := r.s.scan(mstVer, cond3)
+		if err != nil {
+			return fmt.Sprintf("IndexBuilder.Scan %s (execution %d) failed: %v", where, rep+1, err)
+		}
+		gotScan := make([]uint64, len(items))
+		for i, it := range items {
+			gotScan[i] = it.id
+		}
+		if extra, missing := diffIDs(gotScan, wantIDs); len(extra)+len(missing) > 0 {
+			return fmt.Sprintf("IndexBuilder.Scan %s (execution %d): wrongly selected %s, not selected %s (of %d series, %d expected)",
+				where, rep+1, r.describe(extra), r.describe(missing), len(all), len(want))
+		}
+		for _, it := range items {
+			sr := r.m.byKey[r.m.keys[it.id]]
+			if !equalTags(it.tags, sr.T) {
+				return fmt.Sprintf("IndexBuilder.Scan %s: id %x reported with tags %q, written as %q", where, it.id, it.tags, sr.T)
+			}
 		}
 	}
 	// 4. cardinality
